@@ -216,3 +216,40 @@ func H12_src() {
 	sv.Assert("no-panic-escapes-the-public-api", cls == "ok")
 	sv.Reach("called")
 }
+
+// H12_bytes: source text as an arbitrary short buffer - every byte symbolic -
+// through the whole front end (lexer, parser, desugarer, checker, compiler)
+// and one evaluation: a value or an error, never a panic, for every byte.
+func H12_bytes() {
+	pre := []string{"", "a ", "a + ", "[", "f(", "\"", "1"}[sv.Choice("prefix", 7)]
+	// quick: two arbitrary positions on their own, one after each prefix;
+	// thorough: two after each prefix, three on their own
+	n := 1
+	switch {
+	case sv.Thorough() && pre == "":
+		n = 1 + sv.Choice("len", 3)
+	case sv.Thorough() || pre == "":
+		n = 1 + sv.Choice("len", 2)
+	}
+	src := pre + hx.AnyInput(n)
+	api := 1
+	if sv.Thorough() {
+		api = sv.Choice("api", 2)
+	}
+	cls := sv.Outcome(func() {
+		if api == 0 {
+			tenv := types.NewEnv()
+			tenv.Put("a", types.Num)
+			c, err := exprWith(sv.Choice("backend", hx.NBackends)).Compile(src, tenv)
+			if err == nil {
+				venv := val.NewEnv()
+				venv.Put("a", val.Num(1))
+				_, _ = c(venv)
+			}
+		} else {
+			_, _ = Eval(src, map[string]interface{}{"a": 1})
+		}
+	})
+	sv.Assert("no-panic-escapes-the-public-api", cls == "ok")
+	sv.Reach("called")
+}
